@@ -53,8 +53,90 @@ type failure struct {
 	Cfg    runCfg `json:"cfg"`
 }
 
+var failMu sync.Mutex
+
+func addFail(fails *[]failure, f failure) {
+	failMu.Lock()
+	*fails = append(*fails, f)
+	failMu.Unlock()
+}
+
+// errorsWithin calls q.Errors() and reports whether it returned within the (generous) bound.
+func errorsWithin(q *workqueue.Queue, d time.Duration) (chan error, bool) {
+	chc := make(chan chan error, 1)
+	go func() { chc <- q.Errors() }()
+	select {
+	case ch := <-chc:
+		return ch, true
+	case <-time.After(d):
+		return nil, false
+	}
+}
+
+// lazySubscriberRun: a subscriber exists but has not started reading; a work function fails, so the monitor is in a
+// fan-out that waits for that subscriber; NOW a second component calls Errors() (C14: obtaining a new channel while work
+// is running is safe - the call must return), then both are read.  Other work must keep completing meanwhile
+// (error reporting does not stop other work), and the first subscriber must receive the error exactly once.
+func lazySubscriberRun(W, L int, fails *[]failure) runRes {
+	c := runCfg{Producers: 1, W: W, L: L, PerProducer: 2*W + L + 2, Subs: 1, ErrEvery: -1}
+	fail := func(clause, detail string) { addFail(fails, failure{"lazy-subscriber:" + clause, detail, c}) }
+	t0 := time.Now()
+	q := workqueue.NewQueue(workqueue.WithWorkers(W), workqueue.WithQueueLength(L))
+	first := q.Errors() // not read yet
+	theErr := &tokErr{0}
+	var failed, okDone atomic.Int64
+	q.Enqueue(func() error { failed.Add(1); return theErr }, workqueue.WithName("0"))
+	for d := time.Now().Add(20 * time.Second); failed.Load() == 0 && time.Now().Before(d); {
+		time.Sleep(100 * time.Microsecond)
+	}
+	time.Sleep(3 * time.Millisecond) // the monitor is now (almost certainly) blocked sending to `first`; not required for soundness
+	second, ok := errorsWithin(q, 20*time.Second)
+	if !ok {
+		fail("errors-call-hang", "Errors() called while an earlier error waits for a subscriber that has not started reading did not return within 20 s")
+	}
+	// ordinary work submitted now must complete although the fan-out is still waiting
+	n := c.PerProducer - 1
+	prodDone := make(chan struct{})
+	go func() {
+		for i := 0; i < n; i++ {
+			q.Enqueue(func() error { okDone.Add(1); return nil }, workqueue.WithName(strconv.Itoa(i+1)))
+		}
+		close(prodDone)
+	}()
+	for d := time.Now().Add(20 * time.Second); okDone.Load() < int64(n) && time.Now().Before(d); {
+		time.Sleep(200 * time.Microsecond)
+	}
+	if got := okDone.Load(); got < int64(n) {
+		fail("other-work-stopped", fmt.Sprintf("only %d of %d ordinary items completed within 20 s while one error waited for its subscriber", got, n))
+	}
+	// now the subscribers read
+	select {
+	case e := <-first:
+		if e != error(theErr) {
+			fail("error-identity", "the first subscriber received a different value")
+		}
+	case <-time.After(20 * time.Second):
+		fail("error-not-delivered", "the subscriber registered before the work did not receive its error within 20 s")
+	}
+	select {
+	case e := <-first:
+		fail("error-duplicate", fmt.Sprintf("the first subscriber received a second value %v", e))
+	case <-time.After(20 * time.Millisecond):
+	}
+	if ok {
+		select {
+		case e := <-second:
+			if e != error(theErr) {
+				fail("error-identity", "the second subscriber received a foreign value")
+			}
+		case <-time.After(20 * time.Millisecond): // registered after the fan-out began: need not receive it
+		}
+	}
+	return runRes{Cfg: c, Items: c.PerProducer, Errors: 1, WallMs: time.Since(t0).Milliseconds()}
+}
+
 func oneRun(c runCfg, fails *[]failure) runRes {
-	fail := func(clause, detail string) { *fails = append(*fails, failure{clause, detail, c}) }
+	fail := func(clause, detail string) { addFail(fails, failure{clause, detail, c}) }
 	t0 := time.Now()
 	rng := rand.New(rand.NewSource(c.Seed))
 	q := workqueue.NewQueue(workqueue.WithWorkers(c.W), workqueue.WithQueueLength(c.L))
@@ -162,7 +244,12 @@ func oneRun(c runCfg, fails *[]failure) runRes {
 	var late *sub
 	if c.LateSub {
 		time.Sleep(200 * time.Microsecond)
-		late = startSub() // Errors() while work is running must be safe (F14: -race)
+		// Errors() while work is running must be safe (F14: -race) and must return
+		if ch, ok := errorsWithin(q, 20*time.Second); ok {
+			late = listen(ch)
+		} else {
+			fail("errors-call-hang", "Errors() called while work is running did not return within 20 s")
+		}
 	}
 	// mid-run sample of WorkItems(): only what must hold at ANY moment
 	for k := 0; k < 3; k++ {
@@ -296,6 +383,13 @@ func main() {
 		reps = 6
 		per = 40
 	}
+	if *prop == "C14" {
+		for _, W := range []int{1, 2, 3} {
+			if len(fails) == 0 {
+				runs = append(runs, lazySubscriberRun(W, 2, &fails))
+			}
+		}
+	}
 	for r := 0; r < reps; r++ {
 		for _, W := range Ws {
 			for _, L := range Ls {
@@ -319,11 +413,21 @@ func main() {
 					if len(fails) >= 1 {
 						continue // enough evidence: do not spend the watchdog margins on every remaining configuration
 					}
-					runs = append(runs, oneRun(c, &fails))
+					// watchdog for the whole run: every wait inside is bounded, this bounds their sum
+					resc := make(chan runRes, 1)
+					go func() { resc <- oneRun(c, &fails) }()
+					select {
+					case rr := <-resc:
+						runs = append(runs, rr)
+					case <-time.After(150 * time.Second):
+						addFail(&fails, failure{"run-hang", "one stress run did not end within 150 s", c})
+					}
 				}
 			}
 		}
 	}
+	failMu.Lock()
+	defer failMu.Unlock()
 	doc := map[string]any{"runs": runs, "failures": fails, "prop": *prop}
 	b, _ := json.Marshal(doc)
 	if err := os.WriteFile(*out, b, 0o644); err != nil {
